@@ -1,0 +1,5 @@
+//go:build !verif
+
+package generator
+
+func verifYield(point string, job int) {}
